@@ -18,6 +18,17 @@ Theorem C01_newest_wins_node :
 Proof. exact newest_wins_node. Qed.
 Print Assumptions C01_newest_wins_node.
 
+
+(* the same for every edge, over whole histories: a read of identity (t,k) of the edge (par, id) is
+   the fold of [newer] over the accepted edge points of that identity (node type points are not
+   stored); requests are as they arrive over the bus (non-empty parent token, reserved id "none") *)
+Theorem C01_newest_wins_edge :
+  forall ops st par id t k, wf st -> Inv st -> edges_ok st -> Forall op_ok ops ->
+    lookup (edge_rows (run st ops) par id) t k =
+    fold_left newer (sel t k (map normp (accepted_edge st ops par id))) (lookup (edge_rows st par id) t k).
+Proof. exact newest_wins_edge. Qed.
+Print Assumptions C01_newest_wins_edge.
+
 (* the same for one edge-point request on an existing edge (node type points are not stored) *)
 Theorem C01_edge_write :
   forall st id par pts st' e, par <> [] -> keys_norm (e_pts e) ->
